@@ -16,10 +16,12 @@ props_for() {
     *module/mod.rs) echo "C05 C08 C12 C13 C14 C04";;
     *function_builder.rs) echo "C15 C18";;
     *tombstone_arena.rs|*arena_set.rs|*module/types.rs|*src/ty.rs) echo "C17 C04 C19";;
-    *module/producers.rs|*module/config.rs) echo "C14";;
+    *module/producers.rs) echo "C14 C08";;
+    *module/config.rs) echo "C14 C05";;
     *src/parse.rs|*src/emit.rs) echo "C19";;
-    *debug/expression.rs) echo "C10";;
-    *functions/mod.rs) echo "C11 C18 C10 C19";;
+    *debug/expression.rs|*debug/dwarf.rs) echo "C10";;
+    *debug/mod.rs) echo "C10 C12 C14";;
+    *functions/mod.rs) echo "C11 C18 C10 C19 C08";;
     *ir/traversals.rs) echo "C16";;
     *ir/mod.rs) echo "C16 C03";;
     *) echo "C01";;
